@@ -17,6 +17,9 @@ def check(ctx):
         for fam in FAMILIES:
             for mode in MODES:
                 check_kernel(ctx, KE, fam, mode, backend, rule="R8-kernel-is-reference-estimator")
+    # ... with the detrend basis every dispatch site hands it: orthonormal columns spanning degrees 0..order (the reference estimator's trend)
+    from ..qbasis import check_build_Q
+    check_build_Q(ctx)
     from ..effects import check_no_shared_module_state
     check_no_shared_module_state(ctx, rule="R9-config-not-shared")
     ctx.trust("E3/E5 abstract interpreter and library model", "L1 Goertzel closed form", "L2", "L17 chunk partition")
